@@ -72,7 +72,13 @@ class VLoop(base_events.BaseEventLoop):
         self.exceptions = []
         self.set_exception_handler(self._on_exc)
 
+    exc_hook = None
+
     def _on_exc(self, loop, context):
+        # an exception escaping a plain callback is reported while that callback runs: it can be recorded at its place;
+        # "never retrieved" reports of tasks / futures come from the garbage collector and are collected for the end
+        if self.exc_hook is not None and "handle" in context and self.exc_hook(context):
+            return
         self.exceptions.append(context)
 
     def _idle(self):
